@@ -164,6 +164,16 @@ simple("C03", "fault_enumeration",
        TRUST_L1 + ["fixed waits of the controller divided by 50 (tick rates 3-4 ms)"], batches=(16, 32))
 
 
+simple("C09", "fault_enumeration",
+       "in-process layer: real controller.Run + sensor monitor on a closed loop; single faults = component {sensor read, RPM read, PWM read, PWM write, mode write} x kind {EIO, EACCES, "
+       "empty, garbage; cmd: exit 1, garbage} x first hit at operation {1, 2, 12} on that path x duration {1, 6, for good}, for fan backend {hwmon, file, cmd} x sensor backend {hwmon, "
+       "file, cmd} x curve {linear, PID, function(linear, PID), function(function)} (seeded sample of 420 in quick, all in thorough), plus seeded random pairs of faults; oracle: process "
+       "alive, and after the window either the curve keeps being evaluated or the fan satisfies the C03 final-state predicate; non-trivial = every injected fault point was reached; "
+       "distinct by (combination, faults)",
+       TRUST_L1 + ["one child process per batch; its death is attributed to the case logged before it ran", "fixed waits of the controller divided by 50 (tick rates 3-4 ms)"],
+       batches=(16, 48), timeout=(400, 3400))
+
+
 def c14(p, tier, work, t0, replay):
     _src, vh = build_vh(work)
     q = tier == "quick"
